@@ -17,6 +17,11 @@ def gen(rnd, tier):
                           [{"op": "write", "s": R.join_view(a)}, {"op": "flush"}, {"op": "write", "s": R.join_view(b)}, {"op": "flush"},
                            {"op": "write", "s": R.join_view(a)}, {"op": "flush"}]
                     cases.append({"w0": w, "h0": h, "history": [[46] * w], "used": min(1, h - 1), "ops": ops})
+                    # the displayed view written again after a different one that was never painted
+                    ops2 = [{"op": "resize", "w": w, "h": h}] + ([{"op": "enteralt"}] if alt else []) + \
+                           [{"op": "write", "s": R.join_view(a)}, {"op": "flush"}, {"op": "write", "s": R.join_view(b)}, {"op": "write", "s": R.join_view(a)}, {"op": "flush"},
+                            {"op": "write", "s": R.join_view(b)}, {"op": "flush"}]
+                    cases.append({"w0": w, "h0": h, "history": [[46] * w], "used": min(1, h - 1), "ops": ops2})
     return cases
 
 
